@@ -5,5 +5,8 @@ CONSTANTS
   Dial <- DialFail
   FailAt <- FailAtFail
   CleanupWhatWasStored = FALSE
-INVARIANTS Shared RefsExact
+  Active <- NoActive
+  VerdictPerHandler = FALSE
+  MaxFlips = 0
+INVARIANTS Shared RefsExact Watched
 CHECK_DEADLOCK FALSE
